@@ -100,8 +100,9 @@ pub fn phrases(l: L, short: bool) -> (String, String, String) {
         // thread programs: few tokens (the schedule space grows with the square of the points)
         let ord = ordspell::ord_forms(l, 3, Var::default()).remove(0).text;
         let amb = match l {
-            L::En => "o".to_string(),
-            L::Fr => "un neuf".to_string(),
+            // the ambiguous word twice: per-text state of the ambiguity rules (counters, modes) gets exercised
+            L::En => "o o".to_string(),
+            L::Fr => "un neuf neuf".to_string(),
             _ => s(6),
         };
         let p1 = format!("{} {} {} {}", s(21), l.sep(), spell_fraction(l, "05"), ord);
@@ -829,6 +830,31 @@ pub fn silent_child() -> i32 {
             let _ = guard(|| replace_numbers_in_text(&format!("{w} {w}"), &lang, 0.0));
         }
         let cls = crate::vocab::sigma_cls(l);
+        // extremes: decimals of every length up to 25 fraction digits after a small and after a 12-digit
+        // integer part, every class word repeated up to 100 times, odd thresholds, unknown language codes
+        let std = crate::spell::Var::default();
+        for int in [3u64, 999_999_999_999] {
+            let mut text = format!("{} {}", crate::spell::spell(l, int, std), l.sep());
+            for nd in 1..=25u64 {
+                text.push(' ');
+                text.push_str(&crate::spell::spell(l, 1 + (nd * 7) % 9, std));
+                let _ = guard(|| text2digits(&text, &lang).ok());
+                for t in [0.0, 10.0, f64::NAN, f64::INFINITY, -1.0] {
+                    let _ = guard(|| replace_numbers_in_text(&text, &lang, t));
+                }
+            }
+        }
+        for w in &cls {
+            for r in [5usize, 17, 40, 100] {
+                let text = vec![w.as_str(); r].join(" ");
+                let _ = guard(|| text2digits(&text, &lang).ok());
+                let _ = guard(|| replace_numbers_in_text(&text, &lang, 0.0));
+                let _ = guard(|| replace_numbers_in_text(&text, &lang, 1e9));
+            }
+        }
+        for code in ["", "xx", "EN", "english", "en-US", "\u{0}", "e", "zz"] {
+            let _ = guard(|| text2num::get_interpreter_for(code).is_some());
+        }
         for a in &cls {
             for b in &cls {
                 let _ = guard(|| text2digits(&format!("{a} {b}"), &lang).ok());
@@ -925,7 +951,7 @@ pub fn run(tier: Tier) -> i32 {
             }
             if !o.stdout.is_empty() || !o.stderr.is_empty() {
                 let show = |b: &[u8]| String::from_utf8_lossy(&b[..b.len().min(200)]).to_string();
-                ctx.report(&mut acc, Violation { lang: "*".into(), entry: "silent_child".into(), input: "every call of the call alphabet, every vocabulary word, every pair and triple of class words, 7 languages".into(), threshold: None, clause: "calls produce no output on the standard streams".into(), expected: "stdout and stderr empty".into(), observed: format!("stdout {} bytes {:?}; stderr {} bytes {:?}", o.stdout.len(), show(&o.stdout), o.stderr.len(), show(&o.stderr)) });
+                ctx.report(&mut acc, Violation { lang: "*".into(), entry: "silent_child".into(), input: "every call of the call alphabet, every vocabulary word, every pair and triple of class words, decimals of 1..25 fraction digits, class words repeated up to 100 times, odd thresholds and language codes, 7 languages".into(), threshold: None, clause: "calls produce no output on the standard streams".into(), expected: "stdout and stderr empty".into(), observed: format!("stdout {} bytes {:?}; stderr {} bytes {:?}", o.stdout.len(), show(&o.stdout), o.stderr.len(), show(&o.stderr)) });
             }
         }
         Err(e) => {
